@@ -178,6 +178,9 @@ func c05RunWalk(t *testing.T, st *vstat.Stats, w c05Walk) (v *viol) {
 			var e fxEvent
 			if u := usefulEvents(o, w.N); c.Useful && len(u) > 0 && !o.Cancelled {
 				e = u[c.Idx%len(u)]
+				if e.Name != "event_sig_proposal_init" {
+					e.Var = []string{"valid", "valid", "early", "ahead"}[(c.Idx/11)%4] // the contributor's clock is not the proposer's
+				}
 			} else {
 				e = alphabet[c.Idx%len(alphabet)]
 			}
@@ -343,6 +346,10 @@ func c05RunWide(st *vstat.Stats, w c05Walk) *viol {
 		var e fxEvent
 		if u := usefulEvents(o, w.N); c.Useful && len(u) > 0 && !o.Cancelled {
 			e = u[c.Idx%len(u)]
+			if e.Name != "event_sig_proposal_init" {
+				// the contributor's clock: exact, a few seconds behind or ahead of the proposer's
+				e.Var = []string{"valid", "valid", "early", "ahead"}[(c.Idx/11)%4]
+			}
 		} else {
 			e = alphabet[c.Idx%len(alphabet)]
 		}
